@@ -83,3 +83,66 @@ for _nm, (_setup, _nf, _unreg, _warn) in ASSIGN.items():
         self_fields={'channels': {'list': [CH, CH]}, 'frames': {'list': [FR1] * _nf}}, params={}, returns='none',
         closure={'stranger': CH}, setup=_setup,
         raises={'RuntimeError': f'{_unreg} or ({_warn})'}, ensures=[])
+
+# ---------------------------------------------------------------------------------------------- dataset names (C18, C11)
+DCH = {'cls': 'ChannelItem', 'fields': {'name': 'str', '_dataset_name': 'str?'}}
+OTHERS = "result != self.channels[0].dataset_name and result != self.channels[1].dataset_name"
+CONTRACTS['LogicalFile._get_unique_dataset_name'] = dict(
+    props=['C18', 'C11', 'C20'],
+    # `channels` (all channels of the logical file, over all its channel sets) abstracted by its value; copy limit 3 instead of 1000
+    self_fields={'channels': {'list': [DCH, DCH]}, '_max_dataset_copy': 'const:3'},
+    params={'channel_name': 'str', 'dataset_name': 'str?'}, returns='str',
+    raises={'ValueError': 'dataset_name is not None and (dataset_name == self.channels[0].dataset_name or dataset_name == self.channels[1].dataset_name)',
+            'RuntimeError': 'dataset_name is None and name_taken(self, channel_name) and name_taken(self, channel_name + "__1") and name_taken(self, channel_name + "__2")'},
+    ensures=[('unique-among-all-channels-of-the-logical-file', OTHERS),
+             ('explicit-name-kept', 'implies(dataset_name is not None, result == dataset_name)'),
+             ('channel-name-when-free', 'implies(dataset_name is None and not name_taken(self, channel_name), result == channel_name)')])
+
+# ---------------------------------------------------------------------------------------------- add_channel (C18, C20, C11)
+CSET = {'cls': 'ChannelSet', 'fields': {'set_name': 'none', '_eflr_item_list': 'none'}}
+CONTRACTS['ChannelItem.__init__'] = dict(
+    props=[], axiom=True,
+    params={'name': 'str', 'parent': CSET, 'dataset_name': 'str?', 'cast_dtype': 'oneof[none,opq:dtype]', 'kwargs': {}}, returns='none',
+    modifies=['self.name', 'self._dataset_name', 'self._parent'], self_fields={'name': 'str', '_dataset_name': 'str?', '_parent': CSET},
+    raises={'AnyException': 'item_rejected(name, dataset_name)'},
+    ensures=['self.name == name', 'self._dataset_name == dataset_name', 'self._parent is parent'])
+SPEC_UFS = {'item_rejected': (('str', 'opq'), 'bool')}
+DCH2 = {'cls': 'ChannelItem', 'fields': {'name': 'str', '_dataset_name': 'str'}}
+ADD_CH_PARAMS = {'name': 'str', 'data': 'oneof[none,opq:ndarray]', 'dataset_name': 'str?', 'cast_dtype': 'none', 'long_name': 'none', 'dimension': 'none',
+                 'element_limit': 'none', 'properties': 'none', 'units': 'none', 'axis': 'none', 'minimum_value': 'none', 'maximum_value': 'none',
+                 'source': 'none', 'set_name': 'none', 'origin_reference': 'none'}
+CONTRACTS['LogicalFile.add_channel'] = dict(
+    props=['C18', 'C20', 'C11'],
+    # self.channels = ALL channels of the logical file (here: one in the target set, one in another channel set)
+    self_fields={'channels': {'list': [DCH2, DCH2]}, '_max_dataset_copy': 'const:3', '_data_dict': 'dict{}',
+                 'physical_file': {'cls': 'DLISFile', 'fields': {'_eflr_sets': {'cls': 'EFLRSetsDict', 'fields': {}}}},
+                 '_eflr_sets': {'cls': 'EFLRSetsDict', 'fields': {}}, 'default_origin_reference': 'int?'},
+    params=ADD_CH_PARAMS, returns={'cls': 'ChannelItem', 'fields': {}},
+    closure={'target_set': CSET}, setup=['target_set._eflr_item_list = [self.channels[0]]'],
+    inline_callees=['LogicalFile._get_unique_dataset_name'],
+    stubs={'get_or_make_set': dict(returns_expr='target_set', pure=True), 'try_add_set': dict(returns='bool')},
+    may_raise=['AnyException', 'ValueError', 'RuntimeError'],
+    ensures=[('dataset-name-unique-among-ALL-channels-of-the-logical-file',
+              'result._dataset_name != self.channels[0].dataset_name and result._dataset_name != self.channels[1].dataset_name'),
+             ('data-stored-under-that-name-only-after-the-item-was-built', "implies(data is not None, self._data_dict[result._dataset_name] is data)"),
+             ('no-data-no-entry', 'implies(data is None, len(self._data_dict) == 0)')],
+    exc_ensures=[('rejected-call-stores-no-data', 'len(self._data_dict) == 0')])
+
+# ---------------------------------------------------------------------------------------------- add_frame pre-checks (C20, C12)
+CONTRACTS['FrameItem.__init__'] = dict(
+    props=[], axiom=True, params={'name': 'str', 'parent': 'opq:eflrset', 'kwargs': {}}, returns='none',
+    modifies=[], self_fields={}, raises={'AnyException': 'item_rejected(name, parent)'}, ensures=[])
+ADD_FR = {'name': 'str', 'description': 'none', 'index_type': 'none', 'direction': 'none', 'spacing': 'none', 'encrypted': 'none', 'index_min': 'none',
+          'index_max': 'none', 'set_name': 'none', 'origin_reference': 'none'}
+for _nm, _chs, _exc in (('two-channels', {'list': [DCH2, DCH2]}, None), ('a-non-channel-element', {'list': [DCH2, {'cls': 'Attribute', 'fields': {}}]}, 'TypeError'),
+                        ('empty-list', {'list': []}, 'ValueError'), ('not-a-list', 'opq:uval', 'TypeError')):
+    CONTRACTS[f'LogicalFile.add_frame[{_nm}]'] = dict(
+        target='LogicalFile.add_frame', props=['C20', 'C12'],
+        self_fields={'physical_file': {'cls': 'DLISFile', 'fields': {'_eflr_sets': {'cls': 'EFLRSetsDict', 'fields': {}}}},
+                     '_eflr_sets': {'cls': 'EFLRSetsDict', 'fields': {}}, 'default_origin_reference': 'int?'},
+        params=dict(ADD_FR, channels=_chs), returns={'cls': 'FrameItem', 'fields': {}},
+        ghost={'registry_touched': ('bool', 'False')},
+        stubs={'get_or_make_set': dict(returns='opq:eflrset', ghost_set={'registry_touched': 'True'}), 'try_add_set': dict(returns='bool', ghost_set={'registry_touched': 'True'})},
+        raises=({_exc: 'True'} if _exc else {}), may_raise=['AnyException'],
+        exc_ensures=([('rejected-before-any-set-was-created-or-registered', 'not registry_touched')] if _exc else []),
+        ensures=[])
